@@ -74,6 +74,14 @@ def applyOp (op : String) (ts : List String) : Option (Option (List MV)) :=
       let (idx, ts) ← pCounted pNat ts
       let (m, _) ← pMesh ts
       one (m.setIndices idx)
+  | "repeat" => do
+      let (k, ts) ← pNat ts
+      let pT : Parser (trs.TRS Float) := fun ts => do
+        let (p, ts) ← pV3 ts; let (qv, ts) ← pV3 ts; let (qw, ts) ← pFloat ts; let (sc, ts) ← pV3 ts
+        pure (trs.New p ⟨qv, qw⟩ sc, ts)
+      let (tl, ts) ← pMany pT k ts
+      let (m, _) ← pMesh ts
+      oneO (MeshVal.repeatMesh zeroP posKey m (tl.map fun t => liftV3 fun v => t.Transform v))
   | "setattr" => do
       let (w, ts) ← pNat ts
       let (name, ts) ← pTok ts
